@@ -29,6 +29,8 @@ NAMES = ['r0', 'r1', 'r2', 'r3', 'r4']
 
 
 def gen_cases(tier, seed):
+    # the processors of this property once more with assertions disabled (python -O) against a normal interpreter
+    yield {'family': 'optimized_differential', 'idx': 9 * 10 ** 6, 'seed': seed, 'spill': False, 'big': False, 'proc': 'optimized_differential', 'names': ['a'], 'selector': None}
     n = {'quick': 150, 'thorough': 4000}[tier]
     # copies of more rows than the 10240-entry in-memory cache of the row store (long cases first)
     if True:
@@ -135,6 +137,9 @@ def run_step_reuse(case, rng):
 
 
 def run_case(case):
+    if case['family'] == 'optimized_differential':
+        from vlib import optlab
+        return optlab.as_case_result(['concatenate', 'duplicate', 'delete_resource'], {'row_ids_accounted': 0, 'untouched_resources_compared': 0})
     fam = case['family']
     rng = boot.rng(case['seed'], 'C16', fam, case['idx'])
     if fam == 'step_reuse':
